@@ -9,7 +9,15 @@ ConstrainedFDLayout::makeFeasible()+run() and ConstrainedMajorizationLayout::run
 makeFeasible() has to reject and roll back non-overlap alternatives; there every constraint held on the initial positions and must
 still hold afterwards; and the family 'single-axis' (gen_single_axis_case): run(true,false) / run(false,true) / run(false,false) with and
 without a preceding makeFeasible() - the constraints of BOTH dimensions must hold (or be reported) afterwards, and the sequence of
-projections the compiled run() performs (observed by a probe compound constraint) must equal the Coq trace model's for the flags."""
+projections the compiled run() performs (observed by a probe compound constraint) must equal the Coq trace model's for the flags;
+and the family 'reuse' (gen_reuse_case / reuse_sequences, harness mode seq): ONE set of CompoundConstraint objects through a sequence
+makeFeasible(); rectangles moved; makeFeasible() again on the same layout object / on a fresh ConstrainedFDLayout over the same objects;
+run() interleaved - the verified checker is evaluated after EVERY call (after makeFeasible() alone too), and the sub-constraint cursor
+protocol every object goes through in every makeFeasible() call (events logged by observer subclasses of the real constraint classes:
+markAllSubConstraintsAsInactive / subConstraintsRemaining / getCurrSubConstraintAlternatives / markCurrSubConstraintAsActive, cursor
+and `satisfied` flags) must equal the extracted Coq model's (Cola/SubCursorModel.v mf_call, run on the observed accept/reject decisions),
+for which C07_makeFeasible_accounts_for_every_subconstraint proves that every sub-constraint is offered exactly once per call whatever
+state earlier calls left the object in."""
 import os, json, math
 from fractions import Fraction
 from vlib import common as C
@@ -82,6 +90,42 @@ def case_line(case, layout=False):
     if layout:
         t += [len(case['edges'])] + [v for e in case['edges'] for v in e] + [case['ideal'], case['mode'], case['overlap'], case['neighbour']]
     return ' '.join(str(int(x)) for x in t)
+
+
+def ops_tokens(ops):
+    """op sequence of the family 'reuse' (harness mode seq): ['MF'] | ['RUN', xa, ya] | ['NEW'] | ['MOVE', [[node, cx, cy], ...]]
+    (absolute new centres in units of 1/16)"""
+    t = [len(ops)]
+    for o in ops:
+        if o[0] == 'MF':
+            t += [1]
+        elif o[0] == 'RUN':
+            t += [2, int(o[1]), int(o[2])]
+        elif o[0] == 'NEW':
+            t += [3]
+        elif o[0] == 'MOVE':
+            t += [4, len(o[1])] + [v for m in o[1] for v in m]
+        else:
+            raise ValueError(o)
+    return t
+
+
+def seq_line(case):
+    return case_line(case, layout=True) + ' ' + ' '.join(str(int(x)) for x in ops_tokens(case['ops']))
+
+
+def ops_text(ops, upto=None):
+    out = []
+    for k, o in enumerate(ops if upto is None else ops[:upto + 1]):
+        if o[0] == 'MF':
+            out.append('makeFeasible()')
+        elif o[0] == 'RUN':
+            out.append('run(%s,%s)' % ('true' if o[1] else 'false', 'true' if o[2] else 'false'))
+        elif o[0] == 'NEW':
+            out.append('new ConstrainedFDLayout(same rectangles, same constraint objects)')
+        else:
+            out.append('moveCentre ' + ' '.join('%d->(%g,%g)' % (m[0], m[1] / 16.0, m[2] / 16.0) for m in o[1]))
+    return '; '.join(out)
 
 
 # ----------------------------------------------------------------------------------------------- generators
@@ -457,6 +501,140 @@ def gen_single_axis_case(rng, idx):
     edges = [[rng.below(v), v] for v in range(1, n) if rng.chance(5, 6)]
     return {'n': n, 'rects': rects, 'ccs': ccs, 'edges': edges, 'ideal': rng.choice([40, 60, 100]) * 16, 'mode': mode, 'overlap': 0,
             'neighbour': int(rng.chance(1, 6)), 'stream': 'sat', 'kind': 'single-axis/directed'}
+
+
+def cc_nodes(case, j):
+    """rectangles a compound constraint talks about (through the alignments it refers to)"""
+    cc = case['ccs'][j]
+    k = cc['code']
+    if k == 1:
+        return [cc['l'], cc['r']]
+    if k in (3, 4):
+        return [so[0] for so in cc['sh']]
+    if k in (2, 5, 6):
+        return [so[0] for a in refs_of(cc) if a < len(case['ccs']) and case['ccs'][a]['code'] == 3 for so in case['ccs'][a]['sh']]
+    if k == 7:
+        return list(cc['ids'])
+    if k == 8:
+        return [s[0] for s in cc['sh']]
+    return []
+
+
+def gen_reuse_case(rng, idx):
+    """family 'reuse' (seeded change C07-6): ONE set of CompoundConstraint objects goes through a sequence of calls -
+    makeFeasible(); rectangles moved (so that constraints are violated); makeFeasible() again on the same layout object; a fresh
+    ConstrainedFDLayout built over the same rectangles and the same constraint objects; run() interleaved - and the state is judged
+    after EVERY call, in particular after makeFeasible() alone (a following run() re-projects and would hide a skipped constraint).
+    Two thirds directed: in each dimension a jointly satisfiable system along a random witness order (alignments with offsets over
+    disjoint node sets; separations, alignment-pair separations, multi-separations, a distribution between the guidelines / free
+    nodes in witness order; a boundary; sometimes a FixedRelativeConstraint = the combined branch and a PageBoundaryConstraints = a
+    cursor-skipping object); one third the general mixes of gen_layout_case (incl. unsatisfiable ones: rejections, flag = 0)."""
+    if idx % 3 == 2:
+        c = gen_layout_case(rng.fork(), rng.choice([0, 2, 5, 6, 7, 8, 10, 16, 4, 9]))
+        n = c['n']
+        c['overlap'] = 0
+        c['mode'] = 2
+        c['kind'] = 'reuse/mix-' + c['stream']
+    else:
+        n = rng.range(3, 9)
+        rects = gen_rects(rng, n)
+        ccs = []
+        for d in (0, 1):
+            order = rng.shuffle(list(range(n)))
+            rank = {v: k for k, v in enumerate(order)}
+            nodes = rng.shuffle(list(range(n)))
+            groups = []
+            for _ in range(rng.range(0, 3)):
+                k = rng.range(1, 3)
+                if len(nodes) >= k + 1:
+                    groups.append(nodes[:k]); nodes = nodes[k:]
+            gpos = {}
+            for g in groups:
+                gpos[g[0]] = len(ccs)
+                ccs.append({'code': 3, 'd': d, 'pos': rng.range(0, 200) * 16, 'fixed': False,
+                            'sh': [[v, 0 if t == 0 else rng.range(-3, 3) * 40] for t, v in enumerate(g)]})
+            reps = sorted([g[0] for g in groups] + nodes, key=lambda v: rank[v])
+            for _ in range(rng.range(1, 3)):
+                if len(reps) >= 2:
+                    i = rng.below(len(reps) - 1); j = rng.range(i + 1, len(reps) - 1)
+                    ccs.append({'code': 1, 'd': d, 'l': reps[i], 'r': reps[j], 'g': rng.range(0, 60) * 16, 'e': rng.chance(1, 6)})
+            grep = sorted(gpos.keys(), key=lambda v: rank[v])
+            if len(grep) >= 2:
+                what = rng.choice(['sepa', 'multi', 'distrib', 'multi2', 'none'])
+                a, b = grep[0], grep[1]
+                if what == 'sepa':
+                    ccs.append({'code': 2, 'd': d, 'la': gpos[a], 'ra': gpos[b], 'g': rng.range(0, 50) * 16, 'e': rng.chance(1, 5)})
+                elif what == 'multi':
+                    ccs.append({'code': 6, 'd': d, 'sep': rng.range(0, 40) * 16, 'e': False, 'prs': [[gpos[a], gpos[b]]]})
+                elif what == 'distrib':
+                    prs = [[gpos[a], gpos[b]]]
+                    if len(grep) >= 3 and rng.chance(1, 2):
+                        prs.append([gpos[b], gpos[grep[2]]])
+                    ccs.append({'code': 5, 'd': d, 'sep': rng.range(1, 40) * 16, 'prs': prs})
+                elif what == 'multi2' and len(grep) >= 3:
+                    ccs.append({'code': 6, 'd': d, 'sep': rng.range(0, 30) * 16, 'e': False,
+                                'prs': [[gpos[a], gpos[b]], [gpos[b], gpos[grep[2]]]]})
+            if rng.chance(1, 3) and reps:
+                ccs.append({'code': 4, 'd': d, 'pos': rng.range(0, 200) * 16,
+                            'sh': [[reps[0], -rng.choice([8, 24, 64])]] + ([[reps[-1], rng.choice([8, 24, 64])]] if len(reps) > 1 and rng.chance(1, 2) else [])})
+        if rng.chance(1, 4) and n >= 2:
+            a = rng.below(n); b = rng.choice([x for x in range(n) if x != a])
+            ccs.append({'code': 7, 'fixedpos': rng.chance(1, 4), 'ids': [a, b]})
+        if rng.chance(1, 5):
+            ccs.append({'code': 8, 'xlo': -100 * 16, 'xhi': 400 * 16, 'ylo': -100 * 16, 'yhi': 400 * 16, 'w': rng.choice([16, 1600]),
+                        'sh': [[v, (rects[v][1] - rects[v][0]) // 2, (rects[v][3] - rects[v][2]) // 2] for v in range(n) if rng.chance(1, 2)]})
+        # shuffle the list, keeping the references (positions of alignments) right
+        perm = rng.shuffle(list(range(len(ccs))))
+        newpos = {old: new for new, old in enumerate(perm)}
+        out = []
+        for old in perm:
+            cc = dict(ccs[old])
+            if cc['code'] == 2:
+                cc['la'], cc['ra'] = newpos[cc['la']], newpos[cc['ra']]
+            if cc['code'] in (5, 6):
+                cc['prs'] = [[newpos[a], newpos[b]] for a, b in cc['prs']]
+            out.append(cc)
+        edges = [[rng.below(v), v] for v in range(1, n) if rng.chance(5, 6)]
+        c = {'n': n, 'rects': rects, 'ccs': out, 'edges': edges, 'ideal': rng.choice([40, 60, 100]) * 16, 'mode': 2, 'overlap': 0,
+             'neighbour': int(rng.chance(1, 8)), 'stream': 'sat', 'kind': 'reuse/directed'}
+
+    def move():
+        style = rng.choice(['random', 'targeted', 'targeted', 'all'])
+        if style == 'all' or not c['ccs']:
+            nodes = list(range(n))
+        elif style == 'random':
+            nodes = rng.shuffle(list(range(n)))[:rng.range(1, n)]
+        else:
+            nodes = []
+            for _ in range(rng.range(1, 2)):
+                nodes += cc_nodes(c, rng.below(len(c['ccs'])))
+            nodes = sorted(set(v for v in nodes if v < n)) or [rng.below(n)]
+        return ['MOVE', [[v, rng.range(0, 200) * 16, rng.range(0, 200) * 16] for v in nodes]]
+
+    def runop():
+        xa, ya = rng.choice([(1, 1), (1, 1), (1, 1), (1, 0), (0, 1)])
+        return ['RUN', xa, ya]
+    pat = idx % 8
+    if pat == 0:
+        ops = [['MF'], move(), ['MF']]
+    elif pat == 1:
+        ops = [['MF'], move(), ['NEW'], ['MF']]
+    elif pat == 2:
+        ops = [['MF'], runop(), move(), ['MF']]
+    elif pat == 3:
+        ops = [runop(), move(), ['MF'], move(), ['MF']]
+    elif pat == 4:
+        ops = [['MF'], move(), ['NEW'], ['MF'], runop(), move(), ['MF']]
+    elif pat == 5:
+        ops = [['MF'], move(), ['MF'], move(), ['NEW'], ['MF'], move(), ['MF']]
+    else:
+        ops = []
+        for _ in range(rng.range(3, 7)):
+            o = rng.choice(['MF', 'MF', 'MF', 'RUN', 'NEW', 'MOVE', 'MOVE'])
+            ops.append(['MF'] if o == 'MF' else ['NEW'] if o == 'NEW' else runop() if o == 'RUN' else move())
+        ops += [move(), ['MF']]
+    c['ops'] = ops
+    return c
 
 
 def feasible(nvars, cs):
@@ -865,6 +1043,305 @@ def layouts(res, rng, ncases, cpp, ml, corpus=True, nroll=0, nsingle=0):
     return cases, viols + trace_viols, stats
 
 
+# ----------------------------------------------------------------------------------------------- family 'reuse' (harness mode seq)
+def parse_seq(line, n):
+    """'SEQ ncalls (CALL op M|R R <4n> UX k ids UY k ids SUB ncc (combine n cur0 cur1 flags log)* [EXC text])*' -> list of calls"""
+    t = line.split()
+    if not t or t[0] != 'SEQ':
+        return None
+    calls = []
+    p = 2
+    while p < len(t):
+        if t[p] != 'CALL':
+            return None
+        call = {'op': int(t[p + 1]), 'kind': t[p + 2], 'EXC': None}
+        p += 3
+        assert t[p] == 'R'; p += 1
+        call['R'] = [[float(x) for x in t[p + 4 * i:p + 4 * i + 4]] for i in range(n)]
+        p += 4 * n
+        for key in ('UX', 'UY'):
+            assert t[p] == key
+            k = int(t[p + 1]); call[key] = [int(x) for x in t[p + 2:p + 2 + k]]; p += 2 + k
+        assert t[p] == 'SUB'
+        ncc = int(t[p + 1]); p += 2
+        call['SUB'] = []
+        for _ in range(ncc):
+            call['SUB'].append({'combine': t[p], 'n': int(t[p + 1]), 'cur0': int(t[p + 2]), 'cur1': int(t[p + 3]), 'flags': t[p + 4], 'log': t[p + 5]})
+            p += 6
+        if p < len(t) and t[p] == 'EXC':
+            call['EXC'] = t[p + 1].replace('_', ' '); p += 2
+        calls.append(call)
+    return calls
+
+
+def decisions_of(sub):
+    """the marks the implementation made in one call on one object: one character per sub-constraint (1 / 0 / x = never marked)"""
+    w = ['x'] * sub['n']
+    if sub['log'] != '-':
+        for e in sub['log'].split(','):
+            if e.startswith('M'):
+                k, b = e[1:].split(':')
+                if int(k) < len(w) and w[int(k)] == 'x':
+                    w[int(k)] = b
+    return ''.join(w) or '-'
+
+
+def offered_of(log):
+    return [int(e[1:]) for e in log.split(',') if e.startswith('G')] if log != '-' else []
+
+
+def reuse_sequences(res, rng, ncases, cpp, ml, corpus=True):
+    cases = [gen_reuse_case(rng.fork(), i) for i in range(ncases)]
+    if corpus:
+        for f in sorted(os.listdir(os.path.join(C.VERIF, 'corpus')), reverse=True):
+            if f.startswith('c07_seq_') and f.endswith('.json'):
+                cases.insert(0, json.load(open(os.path.join(C.VERIF, 'corpus', f))))
+    lines = [seq_line(c) for c in cases]
+    rc, out, err = run_restarting(cpp, ['seq', '6'], lines)
+    stats = {'sequences': 0, 'calls': 0, 'mf_calls': 0, 'run_calls': 0, 'mf_calls_on_used_objects': 0, 'mf_calls_on_used_objects_new_layout': 0,
+             'mf_calls_some_constraint_violated_at_start': 0, 'cc_evaluated_after_mf': 0, 'cc_evaluated_after_run': 0,
+             'cc_skipped_mf_infeasible_dim': 0, 'cc_excluded_reported': 0, 'cursor_objects_compared': 0, 'cursor_subconstraints_offered': 0,
+             'cursor_rejections_observed': 0, 'cursor_disagreements': 0, 'exceptions': 0, 'by_kind': {}, 'by_object_kind': {}}
+    viols = []
+    if rc != 0 or len(out) < len(cases):
+        done = len([l for l in out if l.strip()])
+        bad = cases[done] if done < len(cases) else None
+        viols.append({'what': 'layout harness (mode seq) crashed (signal/abort) on this case', 'rc': rc, 'case': bad, 'stderr': err[-1500:],
+                      'calls': ops_text(bad['ops']) if bad else None, 'replay': 'echo "%s" | <c07_cc harness> seq' % (lines[done] if bad else '')})
+        cases = cases[:done]
+    rcg, og, eg = run_lines(ml, ['gen'], [case_line(c) for c in cases])
+    for i, c in enumerate(cases):
+        c['feasible'] = [None, None]
+        if rcg == 0 and len(og) >= 2 * len(cases):
+            for d in (0, 1):
+                g = parse_gen(og[2 * i + d])
+                if g[0] == 'OK':
+                    c['feasible'][d] = feasible(c['n'] + len(g[1]), g[3])
+                    c.setdefault('eqcycle', [None, None])[d] = has_equality_cycle(c['n'] + len(g[1]), g[3])
+                    c.setdefault('eqoncycle', [None, None])[d] = equality_on_cycle(c['n'] + len(g[1]), g[3])
+    parsed = []
+    chk_lines, chk_key = [], []          # (case, call, 'after' | 'before')
+    cur_lines, cur_idx = [], []
+    for i, c in enumerate(cases):
+        calls = None
+        if out[i].startswith('SKIP'):
+            parsed.append(None); continue
+        if out[i].startswith('HANG'):
+            phase = out[i].split()[1] if len(out[i].split()) > 1 else '?'
+            viols.append({'what': 'a call of the sequence did not return within the CPU-time limit (6 s; typical: milliseconds) - non-termination in ' + phase,
+                          'phase': phase, 'calls': ops_text(c['ops']), 'case': c, 'replay': 'echo "%s" | <c07_cc harness> seq 6' % lines[i]})
+            parsed.append(None); continue
+        try:
+            calls = parse_seq(out[i], c['n'])
+        except (AssertionError, ValueError, IndexError):
+            calls = None
+        if calls is None:
+            viols.append({'what': 'unparsable harness output (mode seq)', 'case': c, 'output': out[i][:300]})
+            parsed.append(None); continue
+        parsed.append(calls)
+        stats['sequences'] += 1
+        stats['by_kind'][c['kind']] = stats['by_kind'].get(c['kind'], 0) + 1
+        centres = [[(q[0] + q[1]) / 32.0, (q[2] + q[3]) / 32.0] for q in c['rects']]
+        nextop = 0
+        used = False           # have the constraint objects been through a makeFeasible() before?
+        fresh_layout = False   # NEW since the last makeFeasible()
+        ok_for_cursor = True
+        for q, call in enumerate(calls):
+            # replay the moves between the previous call and this one on the client's view of the rectangles
+            for o in c['ops'][nextop:call['op']]:
+                if o[0] == 'MOVE':
+                    for v, x, y in o[1]:
+                        if 0 <= v < c['n']:
+                            centres[v] = [x / 16.0, y / 16.0]
+                if o[0] == 'NEW':
+                    fresh_layout = True
+            nextop = call['op'] + 1
+            call['before'] = [list(p) for p in centres]
+            call['used'] = used
+            call['fresh_layout'] = fresh_layout
+            stats['calls'] += 1
+            rp = 'echo "%s" | <c07_cc harness> seq    # the state after each call is one CALL record; this is call %d (op %d)' % (lines[i], q, call['op'])
+            if call['kind'] == 'M':
+                stats['mf_calls'] += 1
+                if used:
+                    stats['mf_calls_on_used_objects'] += 1
+                    if fresh_layout:
+                        stats['mf_calls_on_used_objects_new_layout'] += 1
+                used = True
+                fresh_layout = False
+            else:
+                stats['run_calls'] += 1
+            if call['EXC']:
+                stats['exceptions'] += 1
+                viols.append({'what': 'a call of the sequence threw: the postcondition of C07 is not delivered', 'exception': call['EXC'],
+                              'calls_so_far': ops_text(c['ops'], call['op']), 'case': c, 'replay': rp})
+                ok_for_cursor = False
+                break
+            R = call['R']
+            if not all(math.isfinite(x) for r in R for x in r):
+                viols.append({'what': 'NaN or infinite coordinate after a call of the sequence', 'calls_so_far': ops_text(c['ops'], call['op']),
+                              'result': R, 'case': c, 'replay': rp})
+                break
+            size_bad = [j for j, r in enumerate(R) if abs(r[2] - (c['rects'][j][1] - c['rects'][j][0]) / 16.0) > 1e-9 or
+                        abs(r[3] - (c['rects'][j][3] - c['rects'][j][2]) / 16.0) > 1e-9]
+            if size_bad:
+                viols.append({'what': 'rectangle size changed by a call of the sequence', 'nodes': size_bad, 'calls_so_far': ops_text(c['ops'], call['op']),
+                              'result': R, 'case': c, 'replay': rp})
+                break
+            if max(abs(x) for r in R for x in r[:2]) > 2.0 ** 40:
+                break
+            chk_lines.append(checker_line(c, R)); chk_key.append((i, q, 'after'))
+            chk_lines.append(checker_line(c, [[p[0], p[1]] for p in call['before']])); chk_key.append((i, q, 'before'))
+            centres = [[r[0], r[1]] for r in R]
+        mfs = [call for call in calls if call['kind'] == 'M']
+        if mfs:
+            k_ok = len(mfs)
+            for k, call in enumerate(mfs):
+                if call['EXC']:
+                    k_ok = k; break
+            if k_ok:
+                cur_lines.append(case_line(c) + ''.join(' | ' + ' '.join(decisions_of(sb) for sb in call['SUB']) for call in mfs[:k_ok]))
+                cur_idx.append((i, k_ok))
+    # ---- the verified checker after (and before) every call
+    if chk_lines:
+        rc2, out2, err2 = run_lines(ml, ['check'], chk_lines)
+        if rc2 != 0 or len(out2) < len(chk_lines):
+            viols.append({'what': 'extracted checker failed to run (family reuse)', 'rc': rc2, 'stderr': err2[-1500:], 'machinery': True})
+        else:
+            verdict = {key: out2[k].split() for k, key in enumerate(chk_key)}
+            for (i, q, when), flags in verdict.items():
+                if when != 'after':
+                    continue
+                c, call = cases[i], parsed[i][q]
+                before = verdict.get((i, q, 'before'))
+                mf = call['kind'] == 'M'
+                if mf and before and any(f != '11' for f in before):
+                    stats['mf_calls_some_constraint_violated_at_start'] += 1
+                run_axes = None
+                if not mf:
+                    o = c['ops'][call['op']]
+                    run_axes = (bool(o[1]), bool(o[2]))
+                for j, cc in enumerate(c['ccs']):
+                    for d in (0, 1):
+                        rep = set(x for x in (call['UX'] if d == 0 else call['UY']) if x >= 0)
+                        if (j in rep) or any(a in rep for a in refs_of(cc)):
+                            stats['cc_excluded_reported'] += 1
+                            continue
+                        accepted_only = False
+                        if mf and c['feasible'][d] is not True:
+                            # makeFeasible() has no reporting channel; in a dimension whose user system is not jointly satisfiable the only
+                            # record of what it gave up is the `satisfied` flag of the sub-constraints (read by the observer).  A constraint
+                            # whose sub-constraints (and those of the alignments it refers to) were ALL accepted must hold.
+                            # Calibrated on the unchanged tree: true whenever no object of the combined branch (FixedRelativeConstraint: added without
+                            # a satisfiability test, colafd.cpp:690-727) is present; with one, ~1% of such constraints end violated - not judged.
+                            objs = [j] + [a for a in refs_of(cc) if a < len(call['SUB'])]
+                            if any(x['code'] == 7 for x in c['ccs']) or not (j < len(call['SUB']) and all(call['SUB'][a]['flags'] != '-' and set(call['SUB'][a]['flags']) == {'1'} for a in objs)):
+                                stats['cc_skipped_mf_infeasible_dim'] += 1
+                                continue
+                            accepted_only = True
+                            stats['cc_evaluated_after_mf_infeasible_dim_all_accepted'] = stats.get('cc_evaluated_after_mf_infeasible_dim_all_accepted', 0) + 1
+                        stats['cc_evaluated_after_mf' if mf else 'cc_evaluated_after_run'] += 1
+                        if flags[j][d] == '1':
+                            continue
+                        held = bool(before) and before[j][d] == '1'
+                        v = {'what': ('compound constraint violated by more than 1e-4 after makeFeasible() (jointly satisfiable system), nothing reported: '
+                                      'call %d of a sequence that re-uses one set of constraint objects' % q) if mf else
+                                     ('compound constraint violated by more than 1e-4 after run() and not reported unsatisfiable: call %d of a sequence '
+                                      'that re-uses one set of constraint objects' % q),
+                             'calls_so_far': ops_text(c['ops'], call['op']), 'call_index': q,
+                             'all_sub_constraints_marked_active_in_an_unsatisfiable_dimension': accepted_only,
+                             'constraint_objects_already_went_through_makeFeasible': call['used'],
+                             'layout_object_is_fresh': call['fresh_layout'],
+                             'run_axes': run_axes, 'held_before_the_call': held, 'centres_before_the_call': call['before'],
+                             'constraint_index': j, 'constraint': cc, 'type': CODES[cc['code']], 'dim': 'XY'[d],
+                             'user_system_jointly_satisfiable_in_dim': c['feasible'][d],
+                             'centres_after_the_call': [r[:2] for r in call['R']], 'reported_unsat_X': call['UX'], 'reported_unsat_Y': call['UY'],
+                             'sub_constraint_cursor_events_of_this_object': (call['SUB'][j]['log'] if j < len(call['SUB']) else None),
+                             'case': c, 'replay': 'echo "%s" | <c07_cc harness> seq    # CALL record %d (op %d)' % (lines[i], q, call['op'])}
+                        rep_any = (call['UX'] if d == 0 else call['UY'])
+                        if not mf and len(rep_any) > 0:
+                            ed, nvars = cc_edges(c, d)
+                            if ed is not None and on_positive_closed_walk(nvars, [e for es in ed[0] for e in es], ed[1][j]):
+                                v['on_infeasible_cycle'] = True
+                                v['fingerprint'] = 'unreported_drop_in_moveTo'
+                        v['equality_on_cycle_in_dim'] = c.get('eqoncycle', [None, None])[d]
+                        # the known finding is about what the SOLVER rejects; it needs the object to have been offered in this call (its
+                        # sub-constraints marked): an object whose sub-constraints were never offered is not that finding
+                        offered_all = j < len(call['SUB']) and all(
+                            len(offered_of(call['SUB'][a]['log'])) >= call['SUB'][a]['n'] for a in [j] + [x for x in refs_of(cc) if x < len(call['SUB'])])
+                        if mf and c['feasible'][d] is True and c.get('eqoncycle', [None, None])[d] and offered_all:
+                            v['fingerprint'] = 'makefeasible_rejects_satisfiable_equality:' + ('cycle' if c.get('eqcycle', [None, None])[d] else 'nocycle')
+                        v['_case'] = i
+                        viols.append(v)
+    # ---- the cursor protocol: observer events of every object in every makeFeasible() call vs the extracted model (mf_call)
+    if cur_lines:
+        rc3, out3, err3 = run_lines(ml, ['cursor'], cur_lines)
+        if rc3 != 0 or len(out3) < len(cur_lines):
+            viols.append({'what': 'extracted cursor model failed to run', 'rc': rc3, 'stderr': err3[-1500:], 'machinery': True})
+        else:
+            for k, (i, k_ok) in enumerate(cur_idx):
+                c = cases[i]
+                mfs = [call for call in parsed[i] if call['kind'] == 'M'][:k_ok]
+                model_calls = [x.split() for x in out3[k].split('|')]
+                bad = None
+                for q, call in enumerate(mfs):
+                    if q >= len(model_calls) or len(model_calls[q]) != len(call['SUB']):
+                        bad = (q, None, 'the model did not complete the call: ' + (' '.join(model_calls[q]) if q < len(model_calls) else 'no output'))
+                        break
+                    for j, sb in enumerate(call['SUB']):
+                        mk, mn, mcur, mflags, mtrace = model_calls[q][j].split(':', 4)
+                        stats['cursor_objects_compared'] += 1
+                        stats['by_object_kind'][mk] = stats['by_object_kind'].get(mk, 0) + 1
+                        stats['cursor_subconstraints_offered'] += len(offered_of(sb['log']))
+                        stats['cursor_rejections_observed'] += decisions_of(sb).count('0')
+                        same = ((mk == 'C') == (sb['combine'] == '1') and int(mn) == sb['n'] and int(mcur) == sb['cur1'] and mflags == sb['flags']
+                                and mtrace == sb['log'])
+                        if not same:
+                            bad = (q, j, None); break
+                    if bad:
+                        break
+                if bad:
+                    stats['cursor_disagreements'] += 1
+                    q, j, msg = bad
+                    call = mfs[q]
+                    v = {'what': 'makeFeasible() does not follow the sub-constraint cursor protocol of the model (Cola/SubCursorModel.v mf_call; theorem '
+                                 'C07_makeFeasible_accounts_for_every_subconstraint rests on it): every sub-constraint of every compound constraint object '
+                                 'must be offered exactly once in THIS call and end active or marked unsatisfiable, whatever earlier calls did to the object',
+                         'makeFeasible_call_number': q, 'calls_so_far': ops_text(c['ops'], call['op']),
+                         'constraint_objects_already_went_through_makeFeasible': call['used'], 'layout_object_is_fresh': call['fresh_layout'],
+                         'case': c, 'replay': 'echo "%s" | <c07_cc harness> seq    # SUB fields of the CALL record of op %d: combine n cursor_before cursor_after flags events' % (lines[i], call['op'])}
+                    if j is not None:
+                        sb = call['SUB'][j]
+                        mk, mn, mcur, mflags, mtrace = model_calls[q][j].split(':', 4)
+                        off = offered_of(sb['log'])
+                        v.update({'constraint_index': j, 'constraint': c['ccs'][j], 'type': CODES[c['ccs'][j]['code']],
+                                  'implementation': {'sub_constraints': sb['n'], 'cursor_before_call': sb['cur0'], 'cursor_after_call': sb['cur1'],
+                                                     'satisfied_flags': sb['flags'], 'events': sb['log'], 'combine': sb['combine']},
+                                  'model': {'kind': mk, 'sub_constraints': int(mn), 'cursor_after_call': int(mcur), 'satisfied_flags': mflags, 'events': mtrace},
+                                  'sub_constraints_never_offered_in_this_call': [x for x in range(sb['n']) if x not in off] if mk != 'S' else [],
+                                  'sub_constraints_offered_more_than_once': sorted(set(x for x in off if off.count(x) > 1))})
+                    else:
+                        v['model_output'] = msg
+                    v['_case'] = i
+                    v['_cursor'] = True
+                    viols.append(v)
+    # report per sequence at most one unexplained checker failure and the cursor disagreement, sequence by sequence (corpus first)
+    seen = set()
+    kept = []
+    for v in viols:
+        if '_case' in v and not v.get('fingerprint'):
+            key = (v['_case'], bool(v.get('_cursor')))
+            if key in seen:
+                stats['further_failures_same_sequence_not_listed'] = stats.get('further_failures_same_sequence_not_listed', 0) + 1
+                continue
+            seen.add(key)
+        kept.append(v)
+    kept.sort(key=lambda v: v.get('_case', -1))
+    for v in kept:
+        v.pop('_case', None); v.pop('_cursor', None)
+    return cases, kept, stats
+
+
 def run(tier):
     res = C.Result(PID, tier, 'proof')
     rng = C.SplitMix64(C.get_seed() ^ 0xC07)
@@ -877,22 +1354,40 @@ def run(tier):
         'the writes other than projections (descent, blend, random displacement) are not observed',
         'single-axis runs run(true,false) / run(false,true) / run(false,false), with and without a preceding makeFeasible(): calibrated on the unchanged tree, setPosition() projects BOTH axes before '
         'every descent evaluation and after the last step whatever the flags, so the oracle is the same as for run(): every user constraint of BOTH dimensions holds to 1e-4 or is reported',
+        'sub-constraint cursor model (Cola/SubCursorModel.v): the solver\'s accept / reject decision inside makeFeasible() is NOT modelled - it is the Section variable `accept` '
+        '(an oracle over the whole event log; every theorem quantifies over it); in the correspondence the oracle is instantiated with the decisions the compiled makeFeasible() was '
+        'observed to take (argument of markCurrSubConstraintAsActive), so the comparison checks the cursor / flag / call-order protocol, not the decisions; the order in which '
+        'makeFeasible() visits the objects (priority sort) is not compared (the theorems do not depend on it); the observers are subclasses of the real classes defined in the harness '
+        '(they read the protected cursor and flags of their own base) - no hook in /repo; NonOverlapConstraints / ClusterContainmentConstraints (own cursor override, rebuilt per call) '
+        'are outside this model',
+        'family reuse: a makeFeasible() call in a dimension whose user system is NOT jointly satisfiable is judged only on constraints whose sub-constraints (and those of the '
+        'alignments they refer to) all ended accepted (`satisfied` flag), and only when the case has no FixedRelativeConstraint (combined branch adds without testing: calibrated, '
+        '~1% of such constraints end violated on the unchanged tree - not judged)',
         'vpsc::Rectangle borders are 0 outside makeFeasible; binary64 arithmetic is exact on the dyadic parameters of the correspondence (validated by it)',
         'V-runs: final centres are rounded to 2^-20 before the exact checker, whose tolerance is 1e-4 + 4*2^-20; makeFeasible()-only runs are checked only when the '
         'user system is jointly satisfiable (exact Bellman-Ford oracle on the model\'s constraints) because makeFeasible has no reporting channel',
         'known finding makefeasible_rejects_satisfiable_equality is matched only when an equality constraint lies on an undirected cycle of the '
         'dimension\'s user constraint graph (necessary for IncSolver to flag anything in a satisfiable system); the rollback family generates forests of '
         'equalities, so a violated constraint there is never classified as known']
+    res.cov['trusted_base'] = list(res.cov.get('trusted_base', [])) + [
+        'C07 cursor model: oracle `accept` (Section variable of Cola/SubCursorModel.v) stands for IncSolver::satisfy\'s verdict on each alternative; '
+        'hand-written model of compound_constraints.cpp:1531-1552 and the loops colafd.cpp:660-853, tied by comparing observer-subclass event logs of every makeFeasible() call '
+        'of the family reuse with cc_trace of the extracted mf_call']
     cpp = C.build_harness('c07_cc', ['libcola', 'libvpsc'], 'exc')
     ml = C.ocaml_build('c07model', 'C07model.v', 'c07_driver.ml', 'c07_model.ml')
     ncorr = 1500 if tier == 'quick' else 12000
     nlay = 500 if tier == 'quick' else 4000
     nroll = 300 if tier == 'quick' else 2500
     nsingle = 400 if tier == 'quick' else 3000
+    nreuse = 400 if tier == 'quick' else 3000
     cases, diffs, hist, ntriv, samples = correspondence(res, rng.fork(), ncorr, cpp, ml)
+    # family 'reuse' first: its corpus entries are the regression for seeded change C07-6
+    rcases, rviols, rstats = reuse_sequences(res, rng.fork(), nreuse, cpp, ml)
     lcases, viols, stats = layouts(res, rng.fork(), nlay, cpp, ml, nroll=nroll, nsingle=nsingle)
+    viols = rviols + viols
     # ---- decide
     real = 0
+    viols.sort(key=lambda v: 1 if v.get('fingerprint') else 0)      # stable: unexplained failures are reported first
     for v in viols:
         if v.get('machinery'):
             continue
@@ -912,14 +1407,16 @@ def run(tier):
                        'correspondence_disagreements': diffs[:3], 'machinery': machinery[:2], 'coq_log_tail': info['log'][-2500:]},
                       no_input=True)
     res.cov.update({
-        'evaluations': 2 * len(cases) + stats['cc_evaluated'],
-        'distinct_nontrivial': ntriv + stats['layouts'],
-        'rule': 'correspondence: (case, dimension) pairs whose generated constraint list is non-empty; V: layouts actually run to completion and checked',
+        'evaluations': 2 * len(cases) + stats['cc_evaluated'] + rstats['cc_evaluated_after_mf'] + rstats['cc_evaluated_after_run'] + rstats['cursor_objects_compared'],
+        'distinct_nontrivial': ntriv + stats['layouts'] + rstats['calls'],
+        'rule': 'correspondence: (case, dimension) pairs whose generated constraint list is non-empty; V: layouts actually run to completion and checked; '
+                'family reuse: makeFeasible()/run() calls of the sequences, each judged on its own',
         'exhaustive': False,
         'samples': samples,
         'traces_validated_against_impl': 2 * len(cases),
         'correspondence': {'cases': len(cases), 'dimension_runs': 2 * len(cases), 'disagreements': len(diffs), 'histogram': hist},
         'layout_validation': stats,
+        'reuse_sequences': rstats,
         'layout_feasibility_histogram': {'X_infeasible': sum(1 for c in lcases if c.get('feasible', [None])[0] is False),
                                          'Y_infeasible': sum(1 for c in lcases if c.get('feasible', [None, None])[1] is False),
                                          'both_feasible': sum(1 for c in lcases if c.get('feasible') == [True, True])},
@@ -934,6 +1431,12 @@ def replay(path):
     if case and 'replay' in obj:
         cpp = C.build_harness('c07_cc', ['libcola', 'libvpsc'], 'exc')
         layout = 'layout' in obj['replay']
+        if 'ops' in case and 'harness> seq' in obj['replay']:
+            print('--- calls: ' + ops_text(case['ops']))
+            rc, out, err, dt = C.sh([cpp, 'seq', '6'], input=seq_line(case) + '\n', timeout=120)
+            print('--- implementation now (one CALL record per makeFeasible()/run(): rectangles, reported lists, SUB = per constraint object '
+                  'combine n cursor_before cursor_after flags events):\n' + out.replace(' CALL ', '\n CALL '))
+            return 0
         rc, out, err, dt = C.sh([cpp, 'layout' if layout else 'gen', '6'], input=case_line(case, layout=layout) + '\n', timeout=120)
         print('--- implementation now:\n' + out)
     return 0
@@ -956,14 +1459,23 @@ META = {
                 '(xAxis, yAxis) flag combination: the trace ends with the projection of X then of Y also in single-axis runs, the axis that is not laid out is written '
                 'only by projections and the random displacement (C07_single_axis_*), closed form of the projection sequence (C07_run_projections, compared with the '
                 'compiled run() on every layout), and the variant that moves only the laid-out axes is refuted (C07_axes_only_variant_*). '
-                'PARTIAL: makeFeasible()\'s search, the solver delivering the hypothesis, the reporting of dropped constraints and '
+                'makeFeasible()\'s sub-constraint cursor protocol (state machine Cola/SubCursorModel.v: per constraint object the sub-constraint list, cursor and satisfied flags; '
+                'mark all inactive + rewind, while remaining: take alternatives, try, mark, advance; combined and cursor-skipping objects; the solver verdict an oracle): '
+                'for EVERY state earlier calls left the objects in (any history, completed or aborted) and every oracle, one call offers every sub-constraint of every object exactly once '
+                'and each ends in the valid set or marked unsatisfiable, flag = which (C07_makeFeasible_accounts_for_every_subconstraint, C07_makeFeasible_reused_objects); without the '
+                'rewind the statement is refuted (C07_makeFeasible_without_rewind_refuted: the second call offers nothing) although a first call is identical '
+                '(C07_makeFeasible_without_rewind_first_call_same); compared per call and per object with the compiled library in the family reuse (constraint objects re-used across '
+                'makeFeasible() calls, same and fresh layout objects, run() interleaved, verified checker after every call). '
+                'PARTIAL: the accept / reject decisions of makeFeasible()\'s search, the solver delivering the hypothesis, the reporting of dropped constraints and '
                 'ConstrainedMajorizationLayout are only validated on real runs by the extracted verified checker (cc_holdsb, proved equivalent to the meaning), '
                 'including a directed family for makeFeasible\'s rollback path (overlap avoidance + rectangles tied by user equalities in both dimensions: '
                 'constraints that held before makeFeasible() must hold after it).',
         'design_ref': 'DESIGN.md 5.7'},
     'level_note': 'Trusted: Coq kernel; hand-written model CompoundCsModel.v (tie = exact comparison of generated (left,right,gap,equality) multisets, auxiliary '
                   'variables and error kinds with the compiled code on random dyadic inputs, every run); extraction (ExtrOcamlBasic), OCaml/C++/Python drivers; '
-                  'exact-rational model of binary64. No axioms (Print Assumptions: closed). Not covered by proof: force computation, step size, makeFeasible '
-                  'priority/rollback search, VPSC itself (C01/C02), majorization loop.',
+                  'exact-rational model of binary64; hand-written model SubCursorModel.v of the sub-constraint cursor protocol whose solver verdict is an ORACLE (Section variable `accept`, '
+                  'instantiated with the observed decisions in the correspondence: tie = exact comparison of observer-subclass event logs, cursor and flags per makeFeasible() call). '
+                  'No axioms (Print Assumptions: closed). Not covered by proof: force computation, step size, the decisions of makeFeasible\'s '
+                  'priority/rollback search (which alternatives the solver accepts), VPSC itself (C01/C02), majorization loop.',
     'technique': 'Coq proof over a hand-written model + exact generator correspondence + extracted verified checker on real layouts',
 }
